@@ -728,7 +728,13 @@ impl Guest {
                 } else {
                     1000 + rng.below(12) as u64
                 };
-                let site = self.sites.get(&id).cloned().unwrap_or_else(|| gen::site(rng, None, if wide { 64 } else { 6 }));
+                let site = match self.sites.get(&id) {
+                    Some(s) => s.clone(),
+                    // a second id for a description that is already known (two macros expanded on one
+                    // line, a rebuilt guest): both ids stay valid, also after persist / restore
+                    None if !self.sites.is_empty() && rng.chance(1, 3) => rng.pick(&self.sites.values().cloned().collect::<Vec<_>>()).clone(),
+                    None => gen::site(rng, None, if wide { 64 } else { 6 }),
+                };
                 self.sites.insert(id, site.clone());
                 push(out, Ev::NewCallSite { id, site });
             }
